@@ -192,17 +192,12 @@ def detail(c, evs, code):
     """Full event list for the drift comparison.  Requests seen by the driver's own
     probe beyond a queue have no name (inner(typeN)): both sides are reduced to the
     request type there."""
-    anon = set()
-    if code is not None:
-        anon = set((e[0], e[1]) for e in code if e[0] in ("pr", "prov") and str(e[2]).startswith("?"))
+    anon = set((e[0], e[1]) for e in code if e[0] in ("pr", "prov") and str(e[2]).startswith("?"))
     out = []
     for e in evs:
         e = list(e)
-        if e[0] in ("pr", "prov"):
-            if str(e[2]).startswith("?"):
-                pass
-            elif (e[0], e[1]) in anon:
-                e[2], e[3] = "?%d" % TYPEIDX[c["rtype"][e[2]]], -1
+        if e[0] in ("pr", "prov") and (e[0], e[1]) in anon and not str(e[2]).startswith("?"):
+            e[2], e[3] = "?%d" % TYPEIDX[c["rtype"][e[2]]], -1
         out.append(e)
     return out
 
@@ -295,8 +290,10 @@ class Graph:
             self.scn[c["id"]] = c
         self.nodes, self.adj, self.order = {}, {}, []
         n = 0
+        keys = {}
         for e in res.beh("EDGE"):
             ku, kv = skey(e["from"]), skey(e["to"])
+            ku, kv = keys.setdefault(ku, ku), keys.setdefault(kv, kv)     # one string object per state
             if ku not in self.adj:
                 self.order.append(ku)
             self.nodes.setdefault(ku, e["from"])
@@ -500,7 +497,18 @@ def gen_random(rng, c, n):
     own = [r for r in c["reqs"] if c["owner"][r] != NONE]
     holds = [s for s in c["nodes"] if c["kind"][s] == "sink" and c["mode"][s] == "hold"]
     queue = any(k == "qsrc" for k in c["kind"].values())
+    # the out-of-band queues of the real queue hold 255 messages (a documented limit, not modelled):
+    # an upper bound of what may be pending is kept below 150 by running the loops
+    pend_d, pend_u = 0, 0
     for _ in range(n):
+        while queue and (pend_d > 150 or pend_u > 150):
+            which = "B" if pend_d > 150 else "A"
+            for _k in range(60):
+                cmds.append(C("loop", which))
+            if which == "B":
+                pend_d -= 60
+            else:
+                pend_u -= 60
         w = rng.below(100)
         x = None
         if w < 18:
@@ -543,6 +551,15 @@ def gen_random(rng, c, n):
             x = C("loop", "A" if rng.chance(1, 2) else "B")
         if x is not None:
             cmds.append(x)
+            if x["op"] in ("reg", "unreg", "require", "out", "rel"):
+                pend_d += 2 * len(c["reqs"])
+            elif x["op"] == "provide":
+                pend_u += 1
+            elif x["op"] == "loop" and x["a"] == "B":
+                pend_d = max(0, pend_d - 1)
+                pend_u += 1         # a registration processed downstream may be answered by a probe
+            elif x["op"] == "loop":
+                pend_u = max(0, pend_u - 1)
     return close_script(c, cmds, tag="random")
 
 
@@ -588,7 +605,7 @@ def confirm_and_report(ctx, binp, s, k, why, source):
 
 def report_crash(ctx, binp, s, crash, source):
     res, again = run_batch(ctx, binp, [s], timeout=30)
-    if again is None:
+    if again is None or again[0] is None:       # (None, ..) = completed, only a leak report at exit
         raise vlib.ToolError("harness died (rc=%s) but not when the script is re-run alone: %s\n%s"
                              % (crash[1], [cmd_text(x) for x in s.cmds], crash[2]))
     # shrink: drop commands while it still dies
@@ -602,8 +619,8 @@ def report_crash(ctx, binp, s, crash, source):
             budget -= 1
             if cand is None or budget <= 0:
                 continue
-            _, cr = run_batch(ctx, binp, [cand])
-            if cr is not None:
+            _, cr = run_batch(ctx, binp, [cand], timeout=30)
+            if cr is not None and cr[0] is not None:
                 cur, changed, again = cand, True, cr
                 break
     key = "%s;crash;%s" % (scn_sig(cur.c), ",".join(cmd_text(x) for x in cur.cmds[:cur.nsteps]))
@@ -616,7 +633,8 @@ def report_crash(ctx, binp, s, crash, source):
 
 
 def run_all(ctx, binp, scripts, source, chunk=400):
-    """Runs scripts in batches; a crash is attributed, reported, and the rest continues."""
+    """Runs scripts in batches; the first crash is attributed to its script and reported (the
+    scripts after it are not run: their results stay None)."""
     out = [None] * len(scripts)
     i = 0
     while i < len(scripts):
@@ -693,8 +711,31 @@ def random_histories(ctx, binp, scns, nexec, length, tag, tour_pairs):
     outs = run_all(ctx, binp, scripts, "random " + tag)
     pairs = [(s, o[0]) for s, o in zip(scripts, outs) if o is not None]
     allp = pairs + list(tour_pairs)
+    # vacuity canary: one accepted-looking execution with one observed event removed goes last;
+    # Requests_Trace must reject it
+    canary = None
+    for sc, out in pairs:
+        for k, (evs, ret) in enumerate(out[:sc.nsteps]):
+            if vproj(evs):
+                drop = [e for e in evs if e[0] in ("sreg", "sunreg", "cb", "freed")][0]
+                bad_out = list(out)
+                bad_out[k] = ([e for e in evs if e is not drop], ret)
+                canary = (sc, bad_out)
+                break
+        if canary:
+            break
+    if canary:
+        allp = allp + [canary]
     before = ctx.traces
     rej, nev = validate(ctx, allp, "random_" + tag)
+    if canary:
+        hit = [r for r in rej if r[0] == len(allp) - 1]
+        rej = [r for r in rej if r[0] != len(allp) - 1]
+        if not hit and len(rej) < 3:
+            raise vlib.ToolError("vacuity: a recorded execution with one observed event removed was accepted "
+                                 "by Requests_Trace")
+        ctx.extra["corrupted_trace_rejected"] = bool(hit)
+        allp = allp[:-1]
     ctx.traces = before + len(pairs) - sum(1 for i, _, _ in rej if i < len(pairs))   # tours were counted when replayed
     ctx.evaluations += nev
     if rej and len(ctx.violations) <= BASEV[0]:
@@ -769,7 +810,7 @@ def replay(ctx, rp):
 
 # ------------------------------------------------------------------------ run
 def exhaustive(ctx, cfg, actions, workers=2, timeout=1500):
-    res = ctx.tlc("MCRequests", cfg, workers=workers, coverage=True, timeout=timeout, heap="6g")
+    res = ctx.tlc("MCRequests", cfg, workers=workers, coverage=True, timeout=timeout, heap="3g")
     ctx.model_must_hold(res, cfg)
     # with a VIEW TLC reports per action "new distinct states : states generated"; the number of
     # times an action was taken is the second figure (an action that only leads to states found
@@ -777,6 +818,7 @@ def exhaustive(ctx, cfg, actions, workers=2, timeout=1500):
     res.coverage = {k: (v[1], v[1]) for k, v in res.coverage.items()}
     ctx.require_coverage(res, actions)
     g = Graph(res)
+    res.out, res.printed = "", []          # hundreds of MB in the thorough tier
     if g.nedges + len(g.inits) != res.generated:
         raise vlib.ToolError("%s: edge enumeration incomplete: %d EDGE lines + %d initial states, %d states generated"
                              % (cfg, g.nedges, len(g.inits), res.generated))
@@ -822,7 +864,8 @@ def run(ctx):
         "providers answer when told to (holding sink), or at registration time (probes, throwing sink); a probe "
         "is configured before the first registration",
         "the queue is crossed by one sink per queue; its two event loops are mock loops (harness/vloop.c) that "
-        "run one iteration when the scenario says so; queue pipes are released only at the end",
+        "run one iteration when the scenario says so; queue pipes are released only at the end; fewer than 255 "
+        "out-of-band messages are pending at any time (the fixed length of the real out-of-band queues)",
         "the order of events inside one command, proxy depths, provide_request events seen by probes and return "
         "codes are details: a difference there alone is recorded as model drift, not reported",
     ]
@@ -845,7 +888,7 @@ def run(ctx):
     for v, inv in negs:
         jobs["neg_" + v] = (lambda v=v: ctx.tlc("MCRequests", "MCRequests_neg_%s.cfg" % v, workers=1, count=False,
                                                 timeout=600))
-    done = parallel(jobs, 4)
+    done = parallel(jobs, 4 if q else 3)
     lap("tlc")
     ctx.exhaustive = True
     scn = {}
@@ -882,11 +925,13 @@ def run(ctx):
         tour_pairs += pairs
         drift = drift or d
         lap("tours_" + tag)
-        if sample is None and scripts and outs[0] is not None:
-            sample = {"scenario": scn_sig(scripts[0].c),
-                      "commands": [cmd_text(x) for x in scripts[0].cmds[:12]],
-                      "predicted": [json.dumps(vproj(p[0])) for p in scripts[0].pred[:12]],
-                      "observed": [json.dumps(vproj(o[0])) for o in outs[0][0][:12]]}
+        cands = [(i, sc) for i, sc in enumerate(scripts[:400]) if outs[i] is not None]
+        if sample is None and cands:
+            i, sc = max(cands, key=lambda x: len(set(json.dumps(vproj(p[0])) for p in x[1].pred[:14])))
+            sample = {"scenario": scn_sig(sc.c),
+                      "commands": [cmd_text(x) for x in sc.cmds[:14]],
+                      "predicted": [json.dumps(vproj(p[0])) for p in sc.pred[:14]],
+                      "observed": [json.dumps(vproj(o[0])) for o in outs[i][0][:14]]}
     ctx.extra["tours"] = walks
     ctx.extra["model_drift"] = drift is not None
     if drift:
